@@ -167,6 +167,24 @@ def _cm(rc: RuleCtx):
             if notin is not None and g_implies(g_tp, notin):
                 used_ok = True
                 used_idx = idx
+    if not used_ok:
+        # the claimed knees kept as one flag per knee: `used = np.zeros(K, dtype=bool)`, tested by `used[idx]`, claimed by `used[idx] = True`
+        fr_ = Frame(ev, fi, 0)
+        for e in out.events:
+            if e.kind != "store" or len(e.args) != 2 or e.target not in env:
+                continue
+            idx, val_ = e.args
+            init = env[e.target]
+            if not (isinstance(init, Rat) and init.is_zero() and isinstance(idx, Rat) and fr_.truth(val_).kind == "true"):
+                continue
+            try:
+                flag = fr_.truth(fr_._sub_value(benv[e.target], idx))
+            except Unsupported:
+                continue
+            resets = [o for o in out.events if o.target == e.target and o is not e and o.kind not in ("load",)]
+            if g_equiv(e.guard, g_tp) and g_implies(g_tp, g_not(flag)) and not resets:
+                used_ok = True
+                used_idx = idx
     if used_ok:
         res.ok("S1", "evaluation.cm:one-to-one", "tp += 1 only for a knee not in the used list, which then receives it => TP <= |K|")
     else:
